@@ -180,9 +180,10 @@ func (o *OracleC09) AtEnd(s *Sim) {
 	}
 }
 
-// crashLock recognises the state "commit-locked validators + a stopped validator that was
-// heard at this height + fewer than M view-changing validators that count at most F
-// committed-or-lost nodes": by the rules of dBFT 2.0 nothing can move in it.
+// crashLock recognises the state "commit-locked validators + stopped validator(s) + fewer
+// than M view-changing validators each of which counts at most F committed-or-lost nodes
+// (a stopped validator that was heard at this height is not counted as lost)": by the rules
+// of dBFT 2.0 nothing can move in it.
 func (o *OracleC09) crashLock(h uint32) bool {
 	var down []*Node
 	for _, n := range o.s.nodes {
@@ -209,11 +210,6 @@ func (o *OracleC09) crashLock(h uint32) bool {
 		free++
 		if !m.d.ViewChanging() || m.d.CountCommitted()+m.d.CountFailed() > m.d.F() {
 			return false
-		}
-		for _, dn := range down {
-			if ls := m.d.LastSeenMessage[dn.ident]; ls == nil || ls.Height < h {
-				return false
-			}
 		}
 	}
 	return free > 0 && free < o.live()[0].d.M()
